@@ -268,6 +268,20 @@ def run_core_check(ctx, spec):
         samples.append({"family": sc["family"], "case_id": cases[0]["id"],
                         "behaviour": [{"in": s.get("in"), "out": s.get("out")} for s in behs[nbeh // 2]["steps"][:5]]})
 
+    for family, nq, nt_ in spec.get("ast", []):
+        # the parsed dialogue of the canonical rendering == the generator's AST (binds the listener's
+        # callback stacks and the INDENT/DEDENT nesting), deterministic, no run needed
+        apath = gen_cases(ctx, family, (nq, nt_)[t], "cases_ast_%s.ndjson" % family)
+        acases, aby = load_cases(apath)
+        aout = ctx.path("astdiffs_%s.ndjson" % family)
+        p = ctx.harness(["core", "ast", "--cases", apath, "--out", aout, "--layouts", 0], timeout=1500)
+        for d in vlib.read_ndjson(aout):
+            ctx.violation({"kind": "ast", "case": aby[d["case"]], "layout": d["layout"], "texts": d["texts"], "what": d["what"]},
+                          "canonical rendering of case %d (family %s): %s %s" % (d["case"], family, d["what"], d.get("detail", "")[:600]),
+                          signature=spec["sig"] + ":" + d["what"])
+        ctx.cover(**{"programs_parsed_%s" % family: len(acases)})
+        evaluations += len(acases)
+
     for cs in spec.get("cs", []):
         path = gen_cases(ctx, cs["family"], cs["n"][t], "cases_cs_%s.ndjson" % cs["family"], storer=cs.get("storer"))
         cases, _ = load_cases(path)
@@ -323,6 +337,13 @@ def replay_core(ctx, spec):
         for d in diffs:
             ctx.violation(beh_payload({case["id"]: case}, behs, d), "replay: " + describe_diff(d["field"], d.get("exp"), d.get("got")),
                           signature=spec["sig"] + ":" + d["field"])
+    elif rp["kind"] == "ast":
+        p = ctx.path("texts.json")
+        json.dump({"texts": rp["texts"], "base": rp.get("base"), "case": rp["case"]}, open(p, "w"))
+        r = ctx.harness(["core", "astone", "--in", p])
+        out = json.loads(r.stdout.strip().splitlines()[-1])
+        if out["what"]:
+            ctx.violation(rp, "replay: " + out["what"], signature=spec["sig"] + ":" + out["what"])
     elif rp["kind"] == "trace":
         inp = ctx.path("rerun_in.ndjson")
         vlib.write_ndjson(inp, rp["events"])
